@@ -1,4 +1,5 @@
 import Logrange.Proofs.RdOffsetBwd
+import Logrange.Proofs.RdMerge2Offset
 import Logrange.Generated.C03
 /-!
 # C16 — Backward navigation and offsets are consistent with forward order
@@ -130,7 +131,27 @@ theorem cex_exported_position_skips_event :
     p1.events.map (·.lbl) = [0, 1, 2] ∧ p2.next.pos = .map [(0, ⟨10, 2⟩)] ∧ p3.events.map (·.lbl) = [2] := by
   decide +kernel
 
-/-- **offset_laws_fixed_order** (statement, merged sources — not proved in general): for a cursor over any
+/-! ## merged cursor of TWO partitions: the forward law, for ALL journals
+
+`mk2 n1 n2 j1 j2` is the cursor `newCursor` builds over two partitions (two leaves under one `Mixer`, the faithful
+mixer-tree model, no filter); its forward result is the timestamp merge of the partitions, ties to the first source
+in leaf order (`Proofs/RdMerge2.lean`). -/
+
+/-- **head_plus_k_two_partitions**: `head` with offset +k skips exactly the first k events of the merged forward
+result — ties across the partitions included. -/
+theorem head_plus_k_two_partitions (n1 n2 : Nat) (j1 j2 : Journal) (k n : Nat) (hs1 : Sorted j1) (hs2 : Sorted j2) :
+    readN n (offset (applyCorner (mk2 n1 n2 j1 j2) false) (k : Int)) =
+      ((List.merge (flat j1) (flat j2) leTs).drop k).take n :=
+  m2_head_plus_k getFwd nextFwd n1 n2 j1 j2 k n hs1 hs2
+
+/-- general form: from any forward state of the merged cursor with `L` still to deliver, `Offset(+k)` leaves `L.drop k` -/
+theorem offset_forward_two_partitions (n1 n2 : Nat) (j1 j2 : Journal) (c : Cur) (L : List Rec) (k : Nat)
+    (hs1 : Sorted j1) (hs2 : Sorted j2) (h : Rem2 n1 n2 j1 j2 c L) :
+    Rem2 n1 n2 j1 j2 (offset c (k : Int)) (L.drop k) :=
+  m2_offset_pos getFwd nextFwd hs1 hs2 k h
+
+/-- **offset_laws_fixed_order** (statement, merged sources — the forward half for two partitions is
+`head_plus_k_two_partitions`; the backward half and more than two partitions are not proved): for a cursor over any
 sources in a fixed leaf order (after f086c95: the tag-line order), un-ranged and unfiltered, with `fwd` the
 cursor's own forward read from `head`: `head + k` and `tail − k` are the slices of `fwd`. Instance:
 `offset_laws_fixed_order_instance` (cross-partition ties, both orders); tested at cursor level and through
